@@ -134,15 +134,18 @@ impl<P: Protocol> RemoteLink<P> {
             select! {
                 o = self.network.read() => {
                     let packet = o?;
-                    let len = {
+                    let read = {
                         let mut buffer = self.link_tx.buffer();
                         buffer.push_back(packet);
-                        self.network.readv(&mut buffer)?;
-                        buffer.len()
+                        self.network.readv(&mut buffer)
                     };
 
-                    trace!("Packets read from network, count = {}", len);
+                    // A malformed frame ends the link, but the packets in front of it in the
+                    // same read (a DISCONNECT, for one) were sent by the client: hand them to
+                    // the router before reporting the error.
                     self.link_tx.notify().await?;
+                    let len = read?;
+                    trace!("Packets read from network, count = {}", len);
                 }
                 // Receive from router when previous when state isn't in collision
                 // due to previously received data request
